@@ -294,8 +294,11 @@ pub fn disasm_event(v: &Vocab, m: &dr::Module, tag: &str) -> Value {
 }
 
 /// Loads the binary; a panic of the loader / parser is recorded (an event of its own, counted by C04).
-fn load_insts(out: &mut Out, insts: &[SInst]) -> Option<dr::Module> {
+fn load_insts(out: &mut Out, insts: &[SInst]) -> Option<dr::Module> { load_insts_v(out, insts, HEADER[1]) }
+/// (with the version word of the input's header)
+fn load_insts_v(out: &mut Out, insts: &[SInst], version: u32) -> Option<dr::Module> {
     let mut ws: Vec<u32> = HEADER.to_vec();
+    ws[1] = version;
     for i in insts { ws.extend(i.encode()); }
     match catch(|| dr::load_words(&ws)) {
         Ok(r) => r.ok(),
@@ -317,7 +320,11 @@ pub fn drive(args: &[String]) {
     // (a) random loadable modules (any mix of opcodes)
     for k in 0..n {
         let (insts, _) = random_loadable(&g, &mut rng, k % 2 == 1, 3);
-        if let Some(mut m) = load_insts(&mut out, &insts) {
+        // "the header comment shows the version": any major.minor byte pair, through the loader (odd k) or set on the module
+        let bytes = [0u32, 1, 2, 6, 9, 15, 16, 17, 32, 100, 127, 128, 255];
+        let ver = if k % 3 == 0 { HEADER[1] } else { (*rng.pick(&bytes) << 16) | (*rng.pick(&bytes) << 8) };
+        if let Some(mut m) = load_insts_v(&mut out, &insts, if k % 2 == 1 { ver } else { HEADER[1] }) {
+            if k % 2 == 0 { if let Some(h) = m.header.as_mut() { h.version = ver; } }
             // every registered generator tool id (and a few unregistered ones) with arbitrary tool versions
             if let Some(h) = m.header.as_mut() { h.generator = (((k % 20) as u32) << 16) | (rng.word() & 0xffff); }
             out.ev(disasm_event(&v, &m, "random"));
